@@ -48,6 +48,17 @@ type Env struct {
 	retained   []retained
 	NoRetain   bool
 	RetainCap  int // 0 = 64
+	// LastFailedWriteApplied: the last write that failed with an injected error turned out to be applied
+	LastFailedWriteApplied bool
+	// LastWriteFailed: the Put/Delete just executed returned the injected I/O error
+	LastWriteFailed bool
+	// IOFaultSeen (sticky, carried over restarts): an I/O error was injected into a record append. pogreb
+	// leaves the stored part of that record behind the logical end of the segment; if nothing overwrites
+	// it (the segment is sealed next), the file ends in bytes that are not a record. No listed property
+	// speaks about behaviour after a failed file-system call, so two things are relaxed from then on,
+	// and only these: the independent decoder may find an invalid TAIL (records after it would still be
+	// missing from the replay and be reported), and Compact may return an error.
+	IOFaultSeen bool
 	Recoveries int
 	lastOpenRecovered bool
 	// OnAPI, when set, is called right before every API call with its index (1-based).
@@ -211,6 +222,15 @@ func (e *Env) Do(op Op) *Violation {
 	if e.OnAPI != nil {
 		e.OnAPI(e.nAPI, op)
 	}
+	if op.K != "put" && op.K != "del" && op.K != "iofail" {
+		e.FS.DisarmWriteFault() // the fault is meant for the record append of the write that follows its marker
+	}
+	e.LastWriteFailed = false
+	defer func() {
+		if op.K == "put" || op.K == "del" {
+			e.FS.DisarmWriteFault()
+		}
+	}()
 	switch op.K {
 	case "open":
 		if err := e.Open(); err != nil {
@@ -228,17 +248,26 @@ func (e *Env) Do(op Op) *Violation {
 		k := append([]byte(nil), e.key(op.Key)...)
 		val := MakeValue(0, op.ID, op.Size)
 		arg := append([]byte(nil), val...)
+		fired := e.FS.FaultsFired
 		err := e.DB.Put(k, arg)
 		scribble(k)
 		scribble(arg)
+		if err != nil && e.FS.FaultsFired > fired {
+			// the injected short write made this Put fail: it must have had no effect or its whole effect
+			return e.resolveFailedWrite(op, mval{true, val})
+		}
 		if err != nil {
 			return violf("api-error", "Put(%s,%dB): %v", clip(e.key(op.Key)), op.Size, err)
 		}
 		e.Model.Put(e.key(op.Key), val)
 	case "del":
 		k := append([]byte(nil), e.key(op.Key)...)
+		fired := e.FS.FaultsFired
 		err := e.DB.Delete(k)
 		scribble(k)
+		if err != nil && e.FS.FaultsFired > fired {
+			return e.resolveFailedWrite(op, mval{})
+		}
 		if err != nil {
 			return violf("api-error", "Delete(%s): %v", clip(e.key(op.Key)), err)
 		}
@@ -305,6 +334,10 @@ func (e *Env) Do(op Op) *Violation {
 		}
 	case "compact":
 		cr, err := e.DB.Compact()
+		if err != nil && e.IOFaultSeen {
+			e.Probes["compact_failed_after_io_error"]++
+			return nil
+		}
 		if err != nil {
 			return violf("api-error", "Compact: %v", err)
 		}
@@ -314,6 +347,10 @@ func (e *Env) Do(op Op) *Violation {
 		if v := e.CheckRetained("after Compact"); v != nil {
 			return v
 		}
+	case "iofail":
+		// fault marker: the next record append to a segment fails (ENOSPC) after op.Size%len bytes
+		e.FS.ArmWriteFault(op.Size)
+		e.Probes["io_fault_armed"]++
 	case "filesize":
 		if n, err := e.DB.FileSize(); err != nil || n <= 0 {
 			return violf("api-error", "FileSize = %d, %v", n, err)
@@ -424,7 +461,7 @@ func (e *Env) CheckContents() *Violation {
 // decoder; both must agree with the model. Valid at quiescent points and after Close.
 func (e *Env) CheckStructure(closed bool) *Violation {
 	files := FilesOf(e.FS)
-	wal, err := WalReplay(files, dbDir, true)
+	wal, err := WalReplay(files, dbDir, !e.IOFaultSeen)
 	if err != nil {
 		return violf("format-decode", "independent decoder rejects the log: %v", err)
 	}
@@ -523,4 +560,36 @@ func debugSegments(files map[string][]byte) {
 			fmt.Printf("DEBUG meta %s %d bytes\n", n, len(b))
 		}
 	}
+}
+
+// resolveFailedWrite: a Put/Delete failed because of the injected I/O error. The write was not
+// acknowledged; it may have taken effect completely or not at all - never partially. The key is
+// read back, must hold the old or the new value, and the model follows what is there.
+func (e *Env) resolveFailedWrite(op Op, nv mval) *Violation {
+	e.Probes["write_failed_by_injected_error"]++
+	e.LastWriteFailed = true
+	e.IOFaultSeen = true
+	k := e.key(op.Key)
+	got, err := e.DB.Get(k)
+	if err != nil {
+		return violf("api-error-after-io-error", "Get(%s) after a write that failed with the injected I/O error: %v", clip(k), err)
+	}
+	old, ok := e.Model.Get(k)
+	gv := mval{got != nil, got}
+	switch {
+	case gv.eq(mval{ok, old}):
+	case gv.eq(nv):
+		if nv.present {
+			e.Model.Put(k, nv.v)
+		} else {
+			e.Model.Delete(k)
+		}
+		e.LastFailedWriteApplied = true
+	default:
+		return violf("failed-write-partially-applied", "after %s failed with the injected I/O error the key reads %s: neither the old value %s nor the new one %s", op, gv, mval{ok, old}, nv)
+	}
+	if int(e.DB.Count()) != len(e.Model.M) {
+		return violf("count-mismatch", "after %s failed with the injected I/O error Count() = %d, %d keys are there", op, e.DB.Count(), len(e.Model.M))
+	}
+	return nil
 }
